@@ -37,7 +37,13 @@ def _patch_specs(prop):
                 continue
             out.append({'prop': p, 'name': 'seed-%s' % name, 'kind': 'mutant', 'patch': os.path.join(d, 'patch.diff'), 'edits': [],
                         'accept_analysis_error': p in meta.get('analysis_error_in_checks', [])})
-    props = [prop] if prop else sorted({s['prop'] for s in out})
+    if prop:
+        props = [prop]
+    else:
+        try:
+            props = [c['property_id'] for c in json.load(open(os.path.join(root, 'MANIFEST.json')))['checks']]
+        except (OSError, ValueError, KeyError):
+            props = sorted({s['prop'] for s in out})
     for d in sorted(glob.glob(os.path.join(root, 'refactorings', '*'))):
         if not os.path.exists(os.path.join(d, 'patch.diff')):
             continue
